@@ -61,33 +61,92 @@ def r1(ctx, rep):
                     "the additional site(s) need the same argument", file=ex["file"], line=lines[-1], fn=ex["fn"])
         else:
             rep.ok(k, {"count": n, "invariant": row["reason"][:100]})
-    # literal-index sites: how many are dominated by a length test that implies the index is in range
-    import guards
-    idx_guarded = {}
-    for sdict in sites:
-        if sdict["cls"] != "Vec[]" or not sdict["step"].endswith("[lit]"):
-            continue
-        sf = syn.fn_at(sdict["file"], sdict["l"])
-        if not sf or "body" not in sf:
-            continue
-        par = guards.parents(sf["body"])
-        for n in walk(sf["body"]):
-            if n.get("k") == "index" and n["l"] == sdict["l"] and n["i"].get("k") == "lit":
-                g = index_guard(n, par)
-                key = sdict["key"]
-                d = idx_guarded.setdefault(key, {"guarded": 0, "sites": 0})
-                d["sites"] += 1
-                if g:
-                    d["guarded"] += 1
-                break
+    idx_guarded = guarded_counts(sites, syn)
     for key, d in sorted(idx_guarded.items()):
         row = rows.get(key)
         want = (row or {}).get("guarded", 0)
         k = "guard:" + "|".join(key)
         ex = by_key[key][0]
-        rep.check(d["guarded"] >= want, k, f"{key[0]}: {want} literal-index site(s) of `{key[2]}` were dominated by a length test that puts the index in range, now only {d['guarded']}: "
-                  "a guard was weakened or removed (e.g. `len() == 1` became `len() <= 1`), so the index can be out of bounds", file=ex["file"], line=ex["l"], fn=ex["fn"])
+        rep.check(d["guarded"] >= want, k, f"{key[0]}: {want} site(s) of `{key[1]}` on `{key[2]}` were dominated by a test that makes them safe (a length test that puts the index in range / "
+                  f"an `is_x()` test or a match arm of the accessor's variant), now only {d['guarded']}: a guard was weakened or removed, so the site can panic",
+                  file=ex["file"], line=ex["l"], fn=ex["fn"])
     rep.note(f"{len(sites)} panic-capable sites in {len(counts)} classes")
+
+
+def guarded_counts(sites, syn):
+    """{class key: {"guarded": n, "sites": m}} for the site kinds whose safety is a local, recognisable guard:
+    literal indexing under a length test, and `x.as_k().unwrap()` under `x.is_k()` / a match arm of variant K."""
+    import guards
+    out = {}
+    pars = {}
+    for sdict in sites:
+        is_idx = sdict["cls"] == "Vec[]" and sdict["step"].endswith("[lit]")
+        is_acc = sdict["cls"] in ("Option::unwrap", "Option::expect", "Result::unwrap", "Result::expect") and re.match(r"^\.(as|into|try_into)_\w+\(\)$", sdict["step"] or "")
+        if not (is_idx or is_acc):
+            continue
+        sf = syn.fn_at(sdict["file"], sdict["l"])
+        if not sf or "body" not in sf:
+            continue
+        par = pars.get(id(sf))
+        if par is None:
+            par = pars[id(sf)] = guards.parents(sf["body"])
+        for n in walk(sf["body"]):
+            g = None
+            if is_idx and n.get("k") == "index" and n["l"] == sdict["l"] and n["i"].get("k") == "lit":
+                g = index_guard(n, par)
+            elif is_acc and n.get("k") == "mcall" and n["m"] in ("unwrap", "expect") and n.get("ml", n["l"]) in (sdict["l"], sdict.get("ml")) or \
+                    (is_acc and n.get("k") == "mcall" and n["m"] in ("unwrap", "expect") and n["l"] == sdict["l"]):
+                r = n["r"]
+                if not (r.get("k") == "mcall" and "." + r["m"] + "()" == sdict["step"]):
+                    continue
+                g = accessor_guard(n, par)
+            else:
+                continue
+            d = out.setdefault(sdict["key"], {"guarded": 0, "sites": 0})
+            d["sites"] += 1
+            if g:
+                d["guarded"] += 1
+            break
+    return out
+
+
+def accessor_guard(node, par):
+    """Is `R.as_k().unwrap()` dominated by `R.is_k()` (arm guard / if condition) or by a match arm on R whose pattern is variant K?"""
+    import guards
+    acc = node["r"]
+    recv = show(acc["r"], maxdepth=6)
+    k = re.sub(r"^(as|into|try_into)_", "", acc["m"])
+    want_call = f"{recv}.is_{k}()"
+    kvar = k.replace("_", "").lower()
+    cur = node
+    while True:
+        p = par.get(id(cur))
+        if p is None:
+            return None
+        kind = p.get("k")
+        if kind == "if":
+            in_then = p.get("t") is cur or guards._contains(p.get("t"), cur)
+            if in_then:
+                for cc in conj(p["c"]):
+                    t = show(cc, maxdepth=8)
+                    if t == want_call:
+                        return f"if {t}"
+                    if cc.get("k") == "macro" and cc["n"] == "matches" and show(cc["a"][0]).lstrip("&*") in (recv, recv + ".kind") and kvar in show(cc.get("pat"), maxdepth=6).replace("_", "").lower():
+                        return f"if {t}"
+        if kind == "match":
+            for arm in p["arms"]:
+                if arm is cur or arm.get("body") is cur or guards._contains(arm["body"], cur):
+                    if arm.get("guard") is not None and want_call in show(arm["guard"], maxdepth=8):
+                        return f"arm guard {want_call}"
+                    scrut = show(p["e"], maxdepth=6).lstrip("&*")
+                    if scrut in (recv, recv + ".kind", "&" + recv):
+                        from synq import pat_head as _ph, pat_alts as _pa
+                        heads = [str(_ph(a)) for a in _pa(arm["pat"])]
+                        if heads and all(last_seg(h).replace("_", "").lower() == kvar for h in heads):
+                            return f"match arm {heads}"
+        if kind in ("closure", "item_fn"):
+            return None
+        cur = p
 
 
 def index_guard(node, par):
@@ -389,6 +448,12 @@ def r7(ctx, rep):
     rep.check(n_reads >= 5, "reads", f"expected >= 5 uses of the lazily filled tables under sql/, found {n_reads} in {n_fns} functions")
 
 
+def r8(ctx, rep):
+    # `args.get(ident.name).unwrap()` in sql/operators.rs (class reviewed under "every hole names a parameter") is safe exactly when C07.R1 holds
+    import C07
+    rep.borrowed(C07.r1, ctx, "C12.R8", "the unwrap of a template hole's argument in sql/operators.rs relies on every hole being a parameter of its own implementation")
+
+
 def run(ctx, rep):
-    for r in (r1, r2, r3, r4, r5, r6, r7):
+    for r in (r1, r2, r3, r4, r5, r6, r7, r8):
         rep.guard(r, ctx)
